@@ -70,6 +70,38 @@ def ops_from_trace(path):
     return ops, states
 
 
+def engine_contract_violations(path):
+    """Per-run discharge of the engine contract `engine_unsat` used by c04_history: when a check is answered unsat by
+    solving with conflict frame k, the final conflict clause (`f` event: activation literals of the frames the refutation
+    used) may only mention frames of index <= k.  Returns a list of (check index, k, offending frame index)."""
+    import re
+    bad, last_f, inst, k = [], None, None, 0
+    for line in open(path, errors="replace"):
+        m = re.match(r"\(f (\S+) \(([-0-9 ]*)\)\)", line)
+        if m:
+            last_f = [int(x) for x in m.group(2).split()]
+            continue
+        if line.startswith("(ms "):
+            m = re.match(r"\(ms (\S+) (\w+) ", line)
+            if inst is None:
+                inst = m.group(1)
+            if m.group(1) != inst:
+                continue
+            if m.group(2) == "check":
+                k += 1
+                cf = re.search(r"\(conflict-frame (\d+)\)", line)
+                fl = re.search(r"\(frame-lits ([-0-9 ]*)\)", line)
+                if cf and fl and last_f is not None:
+                    lits = [int(x) for x in fl.group(1).split()]
+                    for l in last_f:
+                        if abs(l) in [abs(x) for x in lits if x != 0]:
+                            idx = [abs(x) for x in lits].index(abs(l)) + 1
+                            if idx > int(cf.group(1)):
+                                bad.append((k, int(cf.group(1)), idx))
+                last_f = None
+    return bad
+
+
 def strip_queries(text):
     return "\n".join(l for l in text.split("\n") if not l.startswith(("(get-model", "(get-value", "(get-assignment"))) + "\n"
 
@@ -83,8 +115,10 @@ def one(args):
     os.makedirs(os.path.dirname(tr), exist_ok=True)
     rc, res, out, err = sc.run_aligned(text, timeout=20, trace=tr)
     ops, states = (None, "no trace")
+    contract = []
     if os.path.exists(tr):
         ops, states = ops_from_trace(tr)
+        contract = engine_contract_violations(tr)
         os.remove(tr)
     # fresh runs of each check on the flattened active assertions
     ans = answercheck.answers_of(text, res, out) if rc in (0, 1) else None
@@ -99,7 +133,7 @@ def one(args):
     # the same script without get-* queries
     st = strip_queries(text)
     rc3, out3, err3 = vlib.run_opensmt(st, timeout=20) if st != text else (rc, None, None)
-    return text, meta, rc, out, ops, states, ans, fresh, out3
+    return text, meta, rc, out, ops, states, ans, fresh, out3, contract
 
 
 def run(ctx):
@@ -113,7 +147,7 @@ def run(ctx):
     # 1. exact bookkeeping correspondence (model replay of the traced op sequences)
     lines, keep = [], []
     for r in results:
-        text, meta, rc, out, ops, states, ans, fresh, out3 = r
+        text, meta, rc, out, ops, states, ans, fresh, out3, contract = r
         if ops is None:
             ctx.tie_broken("ms-trace", str(states), dict(script=text))
             continue
@@ -128,7 +162,10 @@ def run(ctx):
         ctx.tie_broken("frames-model-run", "rc=%s lines=%d/%d %s" % (rcm, len(mlines), len(keep), outm[-300:]))
         return
     for r, ml in zip(keep, mlines):
-        text, meta, rc, out, ops, states, ans, fresh, out3 = r
+        text, meta, rc, out, ops, states, ans, fresh, out3, contract = r
+        for (kk, cfr, idx) in contract:
+            ctx.tie_broken("engine-contract:conflict-frame", "check %d: reported conflict frame %d but the final conflict uses the activation literal of frame %d" % (kk, cfr, idx),
+                           dict(script=text))
         mstates = [x for x in ml.split(";") if x]
         nchecks = sum(1 for o in ops if o.startswith("check"))
         npops = sum(1 for o in ops if o == "pop")
